@@ -31,7 +31,22 @@
      ops: r<hex n> (ReadRows) | g (Reader.Read, one row) | G<hex n> (GenericReader.Read) | s<hex> | x
    c08.async <machine> <pagecounts> <calls> <seed> <steps>
      machine: idx | noidx; calls: r | s<hex>; the schedule is drawn from the seed (at most <steps> steps)
-     answer: the outputs of the consumer's calls as c08.pages, then /1 when the consumer finished, /0 otherwise *)
+     answer: the outputs of the consumer's calls as c08.pages, then /1 when the consumer finished, /0 otherwise
+   c08.fwd <machine> <rows> <caps> <eof_with_last> <ops>    readers that seek forward only (Cursor/Forward.v)
+     machine: seeker (forwardRowSeeker) | merged (mergedRowGroupRows) | concat (concatenatingRowsWrapper)
+              | merged_once (the seeded variant: at most one batch is dropped)
+     rows: hex; caps: the reader underneath returns at most caps[c mod len] rows on its c-th call (0 or "_": no cap);
+     eof_with_last: 1 = it returns io.EOF together with the last rows, 0 = on the call after
+     ops: r<hex n> (ReadRows) | r<hex n>:<hex cap> (every call underneath made by this ReadRows returns at most
+          cap rows: how an observed short batch is told to the model) | s<hex> (SeekToRow)
+          (the policy of the theorems is one function of the call number; the caps of the operations define it
+           call by call as the run proceeds)
+     answer: per op  i<first>.<count>/<eof> | i/<eof> (no row) | k | b (seek backward refused) | e (seek returned io.EOF)
+   c08.variant <machine> <leaves> <rows> <ops>    the row window of VariantReader (Cursor/VariantLeaves.v)
+     machine: cur | seeded (SeekToRow marks unopened leaves, open() does not position) | spec
+     ops: c<hex j> (a cursor that needs leaf j is created) | r<hex n>[:<j>.<j>...] (Next; the leaves whose
+          first row is to be reported) | s<hex k>
+     answer: per op  d | w<first>.<count>[;<j>=<first row leaf j delivered>...] | e (io.EOF) | k | o (out of range) *)
 open Conv
 
 let nat_of_hex s = nat_of_int (int_of_string ("0x" ^ s))
@@ -146,7 +161,96 @@ let tree_of_nest (s : string) (chunks : Model.nat list array) : Model.rgtree =
   if !pos <> n then failwith "nest";
   t
 
+(* r<n> | r<n>:<cap> | s<k> *)
+let fop_of_tok t : Model.fop * int =
+  if String.length t > 1 && t.[0] = 's' then (Model.FSeek (nat_of_hex (tail t)), 0)
+  else if String.length t > 1 && t.[0] = 'r' then
+    (match String.split_on_char ':' (tail t) with
+     | [n] -> (Model.FRead (nat_of_hex n), 0)
+     | [n; cap] -> (Model.FRead (nat_of_hex n), int_of_string ("0x" ^ cap))
+     | _ -> failwith ("fop " ^ t))
+  else failwith ("fop " ^ t)
+
+let tok_of_fout (o : Model.fout) =
+  match o with
+  | Model.FRows (f, c, e) ->
+      if int_of_nat c = 0 then "i/" ^ tok_of_bool e
+      else Printf.sprintf "i%x.%x/%s" (int_of_nat f) (int_of_nat c) (tok_of_bool e)
+  | Model.FSeekOk -> "k"
+  | Model.FRefused -> "b"
+  | Model.FSeekEOF -> "e"
+
+let run_fwd (step : (Model.nat -> Model.nat) -> 's -> Model.fop -> Model.fout * 's) (caps : Model.nat list)
+    (s0 : 's) (ops : (Model.fop * int) list) : Model.fout list =
+  let rec go s = function
+    | [] -> []
+    | (o, cap) :: rest ->
+        let pol = if cap > 0 then (fun _ -> nat_of_int cap) else Model.cycle caps in
+        let (out, s') = step pol s o in
+        out :: go s' rest in
+  go s0 ops
+
+let vop_of_tok t : Model.vop * int list =
+  if String.length t > 1 && t.[0] = 'c' then (Model.VCreate (nat_of_hex (tail t)), [])
+  else if String.length t > 1 && t.[0] = 's' then (Model.VSeek (nat_of_hex (tail t)), [])
+  else if String.length t > 1 && t.[0] = 'r' then
+    (match String.split_on_char ':' (tail t) with
+     | [n] -> (Model.VNext (nat_of_hex n), [])
+     | [n; ls] -> (Model.VNext (nat_of_hex n), List.map (fun x -> int_of_string ("0x" ^ x)) (String.split_on_char '.' ls))
+     | _ -> failwith ("vop " ^ t))
+  else failwith ("vop " ^ t)
+
+let tok_of_vout (o : Model.vout) (seen : int list) =
+  match o with
+  | Model.VDone -> "d"
+  | Model.VEOF -> "e"
+  | Model.VSeekOk -> "k"
+  | Model.VOutOfRange -> "o"
+  | Model.VWindow (f, c, firsts) ->
+      let firsts = Array.of_list firsts in
+      Printf.sprintf "w%x.%x" (int_of_nat f) (int_of_nat c)
+      ^ String.concat "" (List.map (fun j ->
+          match (if j < Array.length firsts then firsts.(j) else None) with
+          | Some r -> Printf.sprintf ";%x=%x" j (int_of_nat r)
+          | None -> Printf.sprintf ";%x=-" j) seen)
+
 let () =
+  register "c08.variant" (function
+    | [m; leaves; rows; ops] ->
+        let nl = nat_of_hex leaves and n = nat_of_hex rows in
+        let ops = list_of_tok vop_of_tok ops in
+        let vops = List.map fst ops in
+        let outs =
+          match m with
+          | "cur" -> Model.run_variant nl n vops
+          | "seeded" -> Model.run_variant_seeded nl n vops
+          | "spec" -> Model.run_vspec nl n vops
+          | _ -> failwith "c08.variant machine" in
+        String.concat "," (List.map2 (fun o (_, seen) -> tok_of_vout o seen) outs ops)
+    | _ -> failwith "c08.variant args");
+  register "c08.fwd" (function
+    | [m; rows; caps; eofl; ops] ->
+        let n = nat_of_hex rows in
+        let caps = list_of_tok nat_of_hex caps in
+        let eofl = bool_of_tok eofl in
+        let ops = list_of_tok fop_of_tok ops in
+        let z = nat_of_int 0 in
+        let outs =
+          match m with
+          | "seeker" -> run_fwd (fun pol -> Model.fws_step n eofl pol) caps
+                          { Model.f_u = Model.u0; Model.f_seek = z; Model.f_index = z } ops
+          | "merged" -> run_fwd (fun pol -> Model.lz_step n eofl pol) caps
+                          { Model.l_u = Model.u0; Model.l_index = z; Model.l_seek = z } ops
+          | "merged_once" ->
+              run_fwd (fun pol s o -> match o with
+                         | Model.FRead k -> Model.lz_read_fuel (nat_of_int 1) n eofl pol s k
+                         | Model.FSeek k -> Model.lz_seek s k) caps
+                { Model.l_u = Model.u0; Model.l_index = z; Model.l_seek = z } ops
+          | "concat" -> run_fwd (fun pol -> Model.eg_step n eofl pol) caps
+                          { Model.e_u = Model.u0; Model.e_index = z } ops
+          | _ -> failwith "c08.fwd machine" in
+        tok_of_list tok_of_fout outs
+    | _ -> failwith "c08.fwd args");
   register "c08.mrows" (function
     | [m; cols; ops] ->
         let cols = cols1_of_tok cols in
